@@ -379,7 +379,7 @@ def run(ctx):
                 report("C09:evaluator:raises:" + evr["error"].split(":")[0], {"case": case, "error": evr["error"]}, found=True)
             elif not all_num(evr["V"]) or not is_num(evr["expected_value"]):
                 report("C09:evaluator:nonfinite-value", {"case": case, "impl": evr}, found=True)
-            elif evr.get("V_noinit") != evr["V"] or evr.get("noinit_has_value"):
+            elif evr.get("V_noinit") != evr["V"]:
                 report("C09:evaluator:result-depends-on-fsc_initial_state", {"case": case, "impl": evr}, found=True)
             else:
                 sc = scale_of(evr["V"])
